@@ -6,8 +6,10 @@ import glob, json, os, subprocess, sys, time
 ROOT = os.path.dirname(os.path.dirname(os.path.abspath(__file__)))
 sel = sys.argv[1:]
 rows = []
+OUT = open(os.path.join(ROOT, "seeded", "REGRESSION.txt"), "a" if sel else "w")
 def sh(*a, **k):
     return subprocess.run(a, stdout=subprocess.PIPE, stderr=subprocess.STDOUT, text=True, **k)
+OUT.write("# %s  checks at %s\n" % (time.strftime("%Y-%m-%d %H:%M"), sh("git", "-C", ROOT, "rev-parse", "--short", "HEAD").stdout.strip())); OUT.flush()
 if sh("git", "-C", "/repo", "status", "--porcelain").stdout.strip():
     sys.exit("/repo is dirty, refusing")
 for d in sorted(glob.glob(os.path.join(ROOT, "seeded", "C*"))):
@@ -18,7 +20,7 @@ for d in sorted(glob.glob(os.path.join(ROOT, "seeded", "C*"))):
     checks = meta.get("detected_by") or [name[:3]]
     patch = os.path.join(d, "patch.diff")
     if sh("git", "-C", "/repo", "apply", "--check", patch).returncode != 0:
-        rows.append((name, "PATCH-DOES-NOT-APPLY", "", 0)); print(rows[-1], flush=True); continue
+        rows.append((name, "PATCH-DOES-NOT-APPLY", "", 0)); OUT.write("%-55s %-22s %-4s %4ds\n" % rows[-1]); OUT.flush(); print(rows[-1], flush=True); continue
     sh("git", "-C", "/repo", "apply", patch)
     t0 = time.time(); verdict = "MISSED"; by = ""
     try:
@@ -31,10 +33,7 @@ for d in sorted(glob.glob(os.path.join(ROOT, "seeded", "C*"))):
     finally:
         sh("git", "-C", "/repo", "checkout", "--", ".")
     rows.append((name, verdict, by, round(time.time() - t0)))
+    OUT.write("%-55s %-22s %-4s %4ds\n" % rows[-1]); OUT.flush()
     print(rows[-1], flush=True)
-with open(os.path.join(ROOT, "seeded", "REGRESSION.txt"), "a" if sel else "w") as f:
-    f.write("# %s  checks at %s\n" % (time.strftime("%Y-%m-%d %H:%M"), sh("git", "-C", ROOT, "rev-parse", "--short", "HEAD").stdout.strip()))
-    for r in rows:
-        f.write("%-55s %-22s %-4s %4ds\n" % r)
 bad = [r for r in rows if r[1] != "detected"]
 print("%d seeds, %d not detected" % (len(rows), len(bad)))
